@@ -210,6 +210,20 @@ Theorem C03_readers_of_a_tensor_without_instruction_are_unchanged :
 Proof. exact transform_graph_readers_untouched. Qed.
 Print Assumptions C03_readers_of_a_tensor_without_instruction_are_unchanged.
 
+(* the same for a tensor that IS named, but only by in-place quantization — every
+   weight under dynamic-range / weight-only-without-dequantize recipes, every
+   activation between two quantized operators of a full-integer model: it is
+   retyped (C03_quantized_in_place_tensor_gets_selected_dtype) and keeps exactly
+   its original readers at their original slots *)
+Theorem C03_readers_of_a_tensor_quantized_only_in_place_are_unchanged :
+  forall m tis m' k g t,
+    nth_opt (m_subgraphs m) k = Some g -> 0 <= t < ntens g ->
+    ids_ok tis -> only_inplace k t tis ->
+    transform_graph m tis = Ok m' ->
+    exists g', nth_opt (m_subgraphs m') k = Some g' /\ readers_profile t g' = readers_profile t g.
+Proof. exact transform_graph_readers_inplace. Qed.
+Print Assumptions C03_readers_of_a_tensor_quantized_only_in_place_are_unchanged.
+
 (* the positive counterpart for an inserted QUANTIZE / DEQUANTIZE, from the step
    to the END of the run: the operators the instruction lists (resolved to
    positions cs through the performer's id map om) read the NEW tensor — id
